@@ -508,3 +508,61 @@ func RecoverRepanics(act func() ([]byte, error)) ([]byte, error) {
 	}()
 	return act()
 }
+
+// ---- a deferred closure must not close what the return hands out ----
+
+type closable struct{ closed bool }
+
+func (c *closable) Close() { c.closed = true }
+
+func DeferCloseOk(mk func() (*closable, error), try func(*closable) bool, adopt func() (*closable, error)) (k *closable, err error) {
+	k, err = mk()
+	if err != nil {
+		return nil, err
+	}
+	stored := false
+	defer func() {
+		if !stored && k != nil {
+			k.Close()
+		}
+	}()
+	if try(k) {
+		stored = true
+		return k, nil
+	}
+	k.Close()
+	stored = true
+	return adopt()
+}
+
+func DeferCloseErrOk(mk func() (*closable, error), adopt func() (*closable, error)) (k *closable, err error) {
+	defer func() {
+		if err != nil && k != nil {
+			k.Close()
+		}
+	}()
+	k, err = mk()
+	if err != nil {
+		return nil, err
+	}
+	return adopt()
+}
+
+func DeferCloseBad(mk func() (*closable, error), try func(*closable) bool, adopt func() (*closable, error)) (k *closable, err error) {
+	k, err = mk()
+	if err != nil {
+		return nil, err
+	}
+	stored := false
+	defer func() {
+		if !stored && k != nil {
+			k.Close()
+		}
+	}()
+	if try(k) {
+		stored = true
+		return k, nil
+	}
+	k.Close()
+	return adopt()
+}
